@@ -166,7 +166,10 @@ def script_shape(sc):
         if s.get("during"):
             x += "+" + s["during"]
         out.append(x)
-    return sc.get("kind", "?") + ":" + ",".join(out)
+    init = ""
+    if sc.get("init"):
+        init = "[init " + " ".join("%s=%s" % (r["path"], r["name"]) for r in sc["init"]) + "]"
+    return sc.get("kind", "?") + init + ":" + ",".join(out)
 
 
 def report_hist_common(run, res, pid):
